@@ -117,6 +117,7 @@ def run_check(mod, tier, seed, only_case=None):
         "samples": [],
         "fails": [],
         "slowest": 0.0,
+        "distinct_extra": 0,
     }
     all_results = []
     for case, r in zip(cases, pmap(mod, cases)):
@@ -129,6 +130,7 @@ def run_check(mod, tier, seed, only_case=None):
             if sigs is None:
                 sigs = [r.get("sig") or jhash(case)]
             agg["sigs"].update(sigs)
+        agg["distinct_extra"] += int(r.get("distinct_count", 0))
         for o in r.get("outcomes", []):
             agg["outcomes"][o] = agg["outcomes"].get(o, 0) + 1
         for k, v in r.get("counters", {}).items():
@@ -191,7 +193,7 @@ def finish(mod, tier, seed, agg, t0, replaying=False):
         lines.append(f"HARNESS-ERROR property={pid}: vacuous exploration, outcomes never observed: {missing}")
         rc = 2
 
-    distinct = len(agg["sigs"])
+    distinct = len(agg["sigs"]) + agg["distinct_extra"]
     cov = {
         "evaluations": agg["evaluations"],
         "distinct_nontrivial": distinct,
